@@ -331,18 +331,15 @@ func (g *gen) genChan(typs []types.Type) error {
 	p := g.printer
 	g.Generating(typs...)
 	name := g.GetFuncName(typs...)
-	elemTyp, dir, err := g.chanType(name, typs)
+	elemTyp, _, err := g.chanType(name, typs)
 	if err != nil {
 		return err
-	}
-	dirStr := ""
-	if dir == types.RecvOnly {
-		dirStr = "<-"
 	}
 	typStr := g.TypeString(elemTyp)
 	p.P("")
 	p.P("// %s listens on all channels resulting from the input channel and sends all their results on the output channel.", name)
-	p.P("func %s(in %schan (<-chan %s)) <-chan %s {", name, dirStr, typStr, typStr)
+	// the parameter is printed as the argument's own type, since a chan chan T is not assignable to a chan (<-chan T).
+	p.P("func %s(in %s) <-chan %s {", name, g.TypeString(typs[0]), typStr)
 	p.In()
 	p.P("out := make(chan %s)", typStr)
 	p.P("go func() {")
